@@ -14,10 +14,11 @@ RECURSIVE AnyNonZero(_, _, _)
 AnyNonZero(d, i, n) == IF i > n THEN FALSE ELSE IF d[i] # 0 THEN TRUE ELSE AnyNonZero(d, i + 1, n)
 
 ExpCap == 10000000
-RECURSIVE ExpValue(_, _, _, _)
-ExpValue(d, radix, i, acc) ==
-    IF i > Len(d) THEN acc
-    ELSE LET a2 == acc * radix + d[i] IN ExpValue(d, radix, i + 1, IF a2 > ExpCap THEN ExpCap ELSE a2)
+RECURSIVE ExpValueN(_, _, _, _, _)
+ExpValueN(d, n, radix, i, acc) ==
+    IF i > n THEN acc
+    ELSE LET a2 == acc * radix + d[i] IN ExpValueN(d, n, radix, i + 1, IF a2 > ExpCap THEN ExpCap ELSE a2)
+ExpValue(d, radix, i, acc) == ExpValueN(d, Len(d), radix, i, acc)
 
 Log2Of(r) == CASE r = 2 -> 1 [] r = 4 -> 2 [] r = 8 -> 3 [] r = 16 -> 4 [] r = 32 -> 5 [] OTHER -> 0
 
